@@ -8,6 +8,7 @@ import (
 	"bytes"
 	"encoding/json"
 	"fmt"
+	"sort"
 	"testing"
 
 	"github.com/go-logr/logr"
@@ -16,14 +17,16 @@ import (
 )
 
 type C04Plan struct {
-	Table     TableSpec `json:"table"`
+	Table     TableSpec  `json:"table"`
 	Synth     *SynthSpec `json:"synth,omitempty"` // alternative large base table
-	Edits     []Edit    `json:"edits"`
-	TwoStores bool      `json:"two_stores"`
-	Swap      bool      `json:"swap"`
-	EmptySide string    `json:"empty_side,omitempty"` // "", "first", "second", "both"
-	Fault     *Fault    `json:"fault,omitempty"`      // one transient read error during the diff
-	DupEdge   string    `json:"dup_edge,omitempty"`   // "", "first", "second", "both": the CSV of that side repeats the lines at its block edges
+	Edits     []Edit     `json:"edits"`
+	TwoStores bool       `json:"two_stores"`
+	Swap      bool       `json:"swap"`
+	EmptySide string     `json:"empty_side,omitempty"` // "", "first", "second", "both"
+	Fault     *Fault     `json:"fault,omitempty"`      // one transient read error during the diff
+	DupEdge   string     `json:"dup_edge,omitempty"`   // "", "first", "second", "both": the CSV of that side repeats the lines at its block edges
+	NoSum     bool       `json:"no_sum,omitempty"`     // the tables are handed to the differ as decoded from bytes (Table.Sum not set), as ReadTableFrom returns them
+	Sample    int        `json:"sample,omitempty"`     // >0: the first table is every Sample-th row of the (large) base, with the edits applied: one of its blocks spans many blocks of the other
 }
 
 func genRowEdits(r *Rand, cols []string, pk []string, nrows int, maxEdits int) []Edit {
@@ -120,6 +123,18 @@ func init() {
 			if p.Synth != nil && r.Chance(0.35) {
 				p.DupEdge = Pick(r, []string{"first", "second", "both"})
 			}
+			p.NoSum = r.Chance(0.2)
+			if r.Chance(0.015) {
+				// a small sample against the full table: one block of the sample spans dozens of blocks of the other
+				s := SynthSpec{N: r.Range(9000, 14000), NCols: r.Range(2, 3), Seed: r.Uint64()}
+				p.Synth, p.Table, p.Sample, p.DupEdge, p.EmptySide, p.Swap = &s, TableSpec{}, r.Range(30, 60), "", "", r.Chance(0.5)
+				c2, pk2, _ := s.Build()
+				p.Edits = nil
+				for k := r.Range(2, 8); k > 0; k-- {
+					p.Edits = append(p.Edits, Edit{Op: "setcell", Row: r.Intn(s.N / p.Sample), Col: len(c2) - 1, Val: fmt.Sprintf("S%d", k)})
+				}
+				_ = pk2
+			}
 			return p
 		},
 		Exec: execC04,
@@ -144,6 +159,9 @@ type diffEvent struct {
 	Offset, OldOff uint32
 }
 
+// diffNoSum: hand the differ tables without their Sum field (see C04Plan.NoSum)
+var diffNoSum bool
+
 func runDiff(db1, db2 objects.Store, sum1, sum2 []byte) (evs []diffEvent, err error) {
 	tbl1, err := objects.GetTable(db1, sum1)
 	if err != nil {
@@ -152,6 +170,9 @@ func runDiff(db1, db2 objects.Store, sum1, sum2 []byte) (evs []diffEvent, err er
 	tbl2, err := objects.GetTable(db2, sum2)
 	if err != nil {
 		return nil, err
+	}
+	if diffNoSum {
+		tbl1.Sum, tbl2.Sum = nil, nil
 	}
 	idx1, err := objects.GetTableIndex(db1, sum1)
 	if err != nil {
@@ -191,7 +212,7 @@ func execC04(t *testing.T, raw json.RawMessage, res *Result) {
 	var cols, pk []string
 	var rows [][]string
 	if p.Synth != nil {
-		if p.Synth.N < 0 || p.Synth.N > 5000 || p.Synth.NCols > 8 {
+		if p.Synth.N < 0 || (p.Synth.N > 5000 && !(p.Sample > 0 && p.Synth.N <= 20000)) || p.Synth.NCols > 8 || p.Sample < 0 || p.Sample > 1000 {
 			res.Invalid("synth out of range")
 			return
 		}
@@ -215,7 +236,24 @@ func execC04(t *testing.T, raw json.RawMessage, res *Result) {
 			return
 		}
 	}
-	_, _, rows2 := ApplyEdits(cols, pk, rows, p.Edits)
+	diffNoSum = p.NoSum
+	defer func() { diffNoSum = false }()
+	base2 := rows
+	if p.Sample > 0 {
+		// the sample keeps the rows' order of the base; edits then apply to the sample
+		base2 = nil
+		pkI, _ := pkIndices(cols, pk)
+		order := make([]int, len(rows))
+		for i := range order {
+			order[i] = i
+		}
+		sort.SliceStable(order, func(a, b int) bool { return lessKey(keyOf(rows[order[a]], pkI), keyOf(rows[order[b]], pkI)) })
+		for i := 0; i < len(order); i += p.Sample {
+			base2 = append(base2, rows[order[i]])
+		}
+		res.probe("sample_against_full_table", 1)
+	}
+	_, _, rows2 := ApplyEdits(cols, pk, base2, p.Edits)
 	rows2 = DedupeByKey(cols, pk, rows2)
 	rowsA, rowsB := rows2, rows // A = first argument (new), B = second (old)
 	switch p.EmptySide {
